@@ -71,7 +71,7 @@ def case_strategy(draw, variant):
     alt = draw(S.value_column(n, dtypes=(vspec["dtype"],), regime="exact"))["vals"]
     if vspec["dtype"].startswith("int"):
         alt = [v % 2001 - 1000 for v in alt]
-    return {"n": n, "keys": keys, "vals": [vspec], "mask": mask, "spec": spec, "entry": entry, "alt_vals": alt, "sort": True,
+    return {"n": n, "warm": draw(S.warm()), "keys": keys, "vals": [vspec], "mask": mask, "spec": spec, "entry": entry, "alt_vals": alt, "sort": True,
             "render": {"vc": draw(st.sampled_from(["np", "series"])), "kc": "np", "index": draw(st.sampled_from(["default", "shuffled"])), "mc": "np"}}
 
 
@@ -167,7 +167,7 @@ def check(case, ctx):
             raise Violation("shape", f"{len(got)} rows for {n}")
         compare(case, exp, got, labels, pyvals, valid, f"gb:{spec['mode']}")
         if entry == "gb_by_groups":
-            res_g = gbops.build(case, keys).ema(vals[0], mask=mask, index_by_groups=True, **(dict(kw) if "times" not in kw else kw))
+            res_g = gbops.build(case, keys, warm=False).ema(vals[0], mask=mask, index_by_groups=True, **(dict(kw) if "times" not in kw else kw))
             sk = gbops.label_sort_key(case)
             order = [p for lab in sorted(rows, key=sk) for p in rows[lab]]
             gvals = data.series_values(res_g)
@@ -183,7 +183,7 @@ def check(case, ctx):
                 raise Violation("by-groups:index", f"{idx[:6]} != {want_idx[:6]}")
         # relation: halflife h == alpha 1 - 2^(-1/h)
         if spec["mode"] == "halflife":
-            res_a = gbops.build(case, keys).ema(vals[0], mask=mask, alpha=1 - 2 ** (-1 / spec["halflife"]))
+            res_a = gbops.build(case, keys, warm=False).ema(vals[0], mask=mask, alpha=1 - 2 ** (-1 / spec["halflife"]))
             ga = data.series_values(res_a)
             for i in range(n):
                 if not ops.same_values([got[i]], [ga[i]], 1e-9):
@@ -193,7 +193,7 @@ def check(case, ctx):
             target = sorted(rows, key=repr)[0]
             c2vals = [v if labels[i] == target else case["alt_vals"][i] for i, v in enumerate(vspec["vals"])]
             v2 = data.render_val(dict(vspec, vals=c2vals), case["render"]["vc"], index if case["render"]["vc"] == "series" else None)
-            got2 = data.series_values(gbops.build(case, keys).ema(v2, mask=mask, **kw))
+            got2 = data.series_values(gbops.build(case, keys, warm=False).ema(v2, mask=mask, **kw))
             for p in rows[target]:
                 if not ops.same_values([got[p]], [got2[p]], 0.0):
                     raise Violation("independence", f"row {p} of group {target} changed from {got[p]!r} to {got2[p]!r} when other groups' values were re-drawn")
